@@ -57,17 +57,28 @@ def crs_pool():
         ("laea-custom", "laea", "+proj=laea +lat_0=52 +lon_0=20 +x_0=0 +y_0=0 +ellps=GRS80 +units=m +no_defs"),
         ("longlat-grs80", "llgrs80", "+proj=longlat +ellps=GRS80 +no_defs"),
     ]
+    # CRS objects of other libraries (what GeoBox.from_rio / rioxarray hand over): a rasterio CRS of a datum-less definition that merely *resembles* a registered
+    # CRS, the same definition as a PROJ string, and the registered CRS it resembles - two classes, three tags
+    try:
+        import rasterio.crs
+
+        near = "+proj=utm +zone=55 +south +ellps=GRS80 +units=m +no_defs"
+        pool += [("rio-utm55s-grs80", "utm55s-grs80", rasterio.crs.CRS.from_string(near)), ("proj-utm55s-grs80", "utm55s-grs80", near), ("EPSG:7855", "7855", "EPSG:7855"),
+                 ("rio-4326", "4326", rasterio.crs.CRS.from_epsg(4326))]
+    except Exception:  # noqa: BLE001 - rasterio not importable: the foreign-object tags are simply absent
+        pass
     # cross-check the labels with pyproj itself
     for (n1, c1, v1), (n2, c2, v2) in itertools.combinations([p for p in pool if p[1] is not None], 2):
-        a = v1 if isinstance(v1, pyproj.CRS) else pyproj.CRS.from_user_input(v1.proj if isinstance(v1, CRS) else v1)
-        b = v2 if isinstance(v2, pyproj.CRS) else pyproj.CRS.from_user_input(v2.proj if isinstance(v2, CRS) else v2)
+        wk = lambda v: v.to_wkt() if (hasattr(v, "to_wkt") and not isinstance(v, (pyproj.CRS, CRS))) else v
+        a = v1 if isinstance(v1, pyproj.CRS) else pyproj.CRS.from_user_input(v1.proj if isinstance(v1, CRS) else wk(v1))
+        b = v2 if isinstance(v2, pyproj.CRS) else pyproj.CRS.from_user_input(v2.proj if isinstance(v2, CRS) else wk(v2))
         assert a.equals(b) == (c1 == c2), (n1, n2)
     return pool
 
 
 def pair_class(c1, c2) -> str:
     def k(c):
-        return "none" if c is None else "geographic" if c in ("4326", "llgrs80") else "custom" if c in ("sinu", "laea") else "projected"
+        return "none" if c is None else "geographic" if c in ("4326", "llgrs80") else "custom" if c in ("sinu", "laea", "utm55s-grs80") else "projected"
     if c1 == c2:
         return f"same:{k(c1)}"
     return f"{k(c1)}->{k(c2)}"
